@@ -227,6 +227,11 @@ class IdIndex(Index):
         elif operation == "delete":
             txn.delete(self.to_key(event.id))
 
+    def scanner(self, txn, matches, since=None, until=None, events=FakeContainer()):
+        # id keys do not contain a timestamp, so the time window cannot be
+        # applied while scanning. The matcher checks created_at afterwards.
+        return super().scanner(txn, matches, events=events)
+
 
 class CreatedIndex(Index):
     prefix = b"\x01"
